@@ -334,6 +334,10 @@ class Run:
         httpserverimpl._ThreadingHTTPServer = FakeHttpd     # only the TCP server; HttpServerThreadBase stays real
         from sdc11073.consumer import subscription as c_subscription
         from sdc11073.provider import subscriptionmgr_base
+        # the tutorial alarm role provider publishes AlertSystemState updates every second from a worker thread;
+        # park it, so that the provider contacts the consumer only when the scenario says so
+        from tutorial.productandroles import alarmprovider
+        alarmprovider.AlertSystemStateMaintainer.WORKER_THREAD_INTERVAL = 3600.0
         self.ftime = FastTime()
         c_subscription.time = self.ftime
         subscriptionmgr_base.time = self.ftime
